@@ -400,6 +400,9 @@ Definition builtin (name : string) (args : list val) (kws : list (string * val))
                      | [VList _; VMod "list"] => Ok (VBool true) | [_; VMod "list"] => Ok (VBool false)
                      | [VInt _; VMod "int"] => Ok (VBool true) | [VBool _; VMod "int"] => Ok (VBool true) | [_; VMod "int"] => Ok (VBool false)
                      | _ => Stuck "isinstance" end) w)
+  | "hasattr" => Some (pure_ (match args with
+                     | [VObj _ fs; VStr a] => Ok (VBool (match field_get a fs with Some _ => true | None => false end))
+                     | _ => Stuck "hasattr" end) w)
   | "callable" => Some (pure_ (match args with [VObj "<bound method>" _] => Ok (VBool true) | [VObj _ _] => Stuck "callable(object)" | [_] => Ok (VBool false) | _ => Stuck "callable" end) w)
   | "tuple" => Some (pure_ (match args with [a] => do l <- as_list a; Ok (VTuple l) | _ => Stuck "tuple" end) w)
   | "np.ones" => Some (pure_ (match args with [VInt n] => Ok (VArr (repeat (VNum (Fin 1)) (Z.to_nat n))) | _ => Stuck "np.ones" end) w)
